@@ -315,6 +315,12 @@ def check_after(w, S0, S1, pre, refuse, outcome, viol, want_entries=True):
             D = w.rel(os.path.realpath(os.path.join(w.world, E)))
             allowed[D] = "entry"
             touched_dirs.add(D)
+        was = S0.get(E)
+        if rec["type"] == "dir" and was is not None and was["type"] == "sym" and not was["target"].startswith("/"):
+            # the directory entry met a symlink to a directory: that directory is the entry's pre-existing directory
+            # (its mtime is applied through the link) even if the link itself is gone by now -- e.g. removed as the
+            # temporary name `X#new` of a neighbour X during a merge that then refused. Only the mtime is exempt.
+            touched_dirs.add(os.path.normpath(os.path.join(os.path.dirname(E), was["target"])))
         if not want_entries or p in aliased:
             continue
         if got is None:
